@@ -87,7 +87,7 @@ pub struct OpenCase {
     pub wrong_magic: bool,
     pub create: bool,
     /// read-only opens only: leftover flags of a "writable" Options value (bit 0 write, 1 truncate, 2 append, 3 create_new);
-    /// map / map_copy_read_only are documented to clear them
+    /// map / map_copy_read_only are documented to clear them; bit 4: use the `*_with_path_builder` entry point
     pub leftover: u8,
 }
 
@@ -122,14 +122,8 @@ fn open_case<A: Ar>(base: &Base, oc: &OpenCase, path: &PathBuf) -> std::io::Resu
             opts = opts.with_create_new(true);
         }
     }
-    unsafe {
-        match oc.mode {
-            0 => opts.with_write(true).map_mut::<A, _>(path),
-            1 => opts.with_write(true).map_copy::<A, _>(path),
-            2 => opts.map::<A, _>(path),
-            _ => opts.map_copy_read_only::<A, _>(path),
-        }
-    }
+    let opts = if oc.mode < 2 { opts.with_write(true) } else { opts };
+    open_file::<A>(opts, oc.mode, path, oc.leftover & 16 != 0)
 }
 
 /// Expected outcome per the statement: error iff an identification field is invalid or differs from
@@ -218,7 +212,7 @@ fn all_cases(rng: &mut Rng, full: bool) -> Vec<OpenCase> {
             if !full && rng.chance(1, 2) {
                 continue;
             }
-            v.push(OpenCase { mode, capk, wrong_fl: rng.chance(1, 5), wrong_magic: rng.chance(1, 6), create: rng.chance(1, 4), leftover: if rng.chance(1, 3) { rng.below(16) as u8 } else { 0 } });
+            v.push(OpenCase { mode, capk, wrong_fl: rng.chance(1, 5), wrong_magic: rng.chance(1, 6), create: rng.chance(1, 4), leftover: (if rng.chance(1, 3) { rng.below(16) as u8 } else { 0 }) | (if rng.chance(1, 3) { 16 } else { 0 }) });
         }
     }
     v
@@ -306,7 +300,7 @@ fn readonly_session<A: Ar>(base: &Base, path: &PathBuf, rng: &mut Rng, out: &mut
         return;
     }
     let mode = 2 + rng.below(2) as u8;
-    let oc = OpenCase { mode, capk: rng.below(3) as u8, wrong_fl: false, wrong_magic: false, create: false, leftover: if rng.chance(1, 3) { rng.below(16) as u8 } else { 0 } };
+    let oc = OpenCase { mode, capk: rng.below(3) as u8, wrong_fl: false, wrong_magic: false, create: false, leftover: (if rng.chance(1, 3) { rng.below(16) as u8 } else { 0 }) | (if rng.chance(1, 3) { 16 } else { 0 }) };
     let mut a: A = match open_case::<A>(base, &oc, path) {
         Ok(a) => a,
         Err(e) => {
